@@ -72,8 +72,14 @@ func concCase(rt *rapid.T, prop string, rec *vt.Rec) {
 			logf("link %s -> %s", s.agents[i].id.name, walletIdent(walletOf[i]).name)
 		}
 	}
-	// every client first reports the hosts (elapsed 0, free) so that they are tracked
-	for i := nHosts; i < n; i++ {
+	// every client first reports the hosts (elapsed 0, free) so that they are tracked - or not: then the very first
+	// keep-alives the balance manager ever sees arrive together (first-use initialisation inside the manager is
+	// exercised by the race detector)
+	cold := rapid.IntRange(0, 2).Draw(rt, "cold") == 0
+	if cold {
+		logf("no warm-up keep-alives: the first billing calls are concurrent")
+	}
+	for i := nHosts; i < n && !cold; i++ {
 		s.model.update(s.agents[i].id.nodeID, hostIDs, 1)
 		if _, err := s.update(i, hostIDs, 1, false, false); err != nil {
 			fail("first update: %v", err)
